@@ -448,6 +448,8 @@ Definition closedP (l : list cls) (P : cid -> Prop) : Prop :=
     (forall e, c_extends r = Some (Some e) -> P e) /\
     (forall k t, In (k, t) (c_fields r) -> P t).
 
+Local Opaque FUEL obs_keys.
+
 Section Agree.
 Variables (l l1 : list cls) (P : cid -> Prop).
 Hypothesis AG : forall x, P x -> nth_cls l1 x = nth_cls l x.
@@ -498,10 +500,10 @@ Qed.
 
 Lemma obs_agree : forall depth fuel c, P c -> obs_f depth fuel l1 c = obs_f depth fuel l c.
 Proof.
-  induction depth; simpl; intros; auto.
-  rewrite AG by auto. destruct (nth_cls l c) as [r |] eqn:N; auto.
+  induction depth; simpl; intros; [reflexivity |].
+  rewrite AG by exact H. destruct (nth_cls l c) as [r |] eqn:N; [| reflexivity].
   destruct (CL _ _ H N) as [X [Y Z]].
-  rewrite tname_agree, obs_attrs_agree, extends_agree by auto.
+  rewrite tname_agree, obs_attrs_agree, extends_agree by exact H.
   f_equal.
   - destruct (extends_f fuel l c) as [e |] eqn:E; auto.
     apply IHdepth. eapply extends_in_P; eauto.
